@@ -48,15 +48,16 @@ cls("c18_DW", fields={"context": Ref("c18_DCtx"), "options": Ref("c18_DOpts")}, 
 # ---- sorted(): contract-local library model -----------------------------------------------------------------------------------------
 
 
-_SORTED_CLAUSE = ("sorted(xs) for a list / set / generator of str or numbers: a list r with len(r) == len(xs) (for a set: empty iff the set is, every r[k] in the set, every element at some position, strictly increasing), the same elements "
-                  "(every r[k] is some xs[j], every xs[j] is some r[k], `x in r` iff `x in xs`), and r[k1] <= r[k2] for k1 < k2 (library semantics of the builtin; "
+_SORTED_CLAUSE = ("sorted(xs) for a list / set / generator of str or numbers: a list r with len(r) == len(xs) (for a set: empty iff the set is, every r[k] in the set, every element at exactly one position, strictly increasing), the same elements "
+                  "(a permutation of the positions: r[k] is xs[sigma(k)], xs[j] is r[tau(j)], sigma and tau inverse to each other; `x in r` iff `x in xs`), and r[k1] <= r[k2] for k1 < k2 (library semantics of the builtin; "
                   "consequences of 'sorted permutation').  Variants that assume only some of these facts are used where the others are not needed.")
 
 
-def make_sorted(tag, elements=True, order=True):
-    """a contract-local model of the builtin `sorted` assuming a SUBSET of its library semantics (fewer hypotheses on the path)"""
+def make_sorted(tag, elements=True, order=True, distinct=False):
+    """a contract-local model of the builtin `sorted` assuming a SUBSET of its library semantics (fewer hypotheses on the path);
+    distinct: for a SET argument, the weaker consequence of the strict order "no element twice" (no string comparison in the logic)"""
 
-    @M.shim_function("sorted_" + tag, _SORTED_CLAUSE + f"  [this variant: length{', elements' if elements else ''}{', order' if order else ''}]")
+    @M.shim_function("sorted_" + tag, _SORTED_CLAUSE + f"  [this variant: length{', elements' if elements else ''}{', order' if order else ''}{', a set is enumerated without repetition' if distinct else ''}]")
     def _sorted(ex, st, args, kwargs, node):
         if len(args) != 1 or kwargs:
             raise Unsupported("sorted(key=/reverse=)", node)
@@ -76,10 +77,15 @@ def make_sorted(tag, elements=True, order=True):
             x = fresh(et, "sx")
             st.assume((z3.Length(r) == 0) == (sv == z3.K(et.sort(), z3.BoolVal(False))))
             if elements:
-                st.assume(z3.ForAll([k], z3.Implies(z3.And(0 <= k, k < z3.Length(r)), z3.Select(sv, r[k]))))
-                st.assume(z3.ForAll([x], z3.Implies(z3.Select(sv, x), z3.Exists([k], z3.And(0 <= k, k < z3.Length(r), r[k] == x)))))
+                # position function of the enumeration and its inverse law: without `pos(r[k]) == k` the two facts instantiate each other for ever
+                # (r[k] in S -> a position of r[k] -> the element there is in S -> ..); with it the new position IS k
+                pos = z3.Function(fresh_name("sortpos"), et.sort(), z3.IntSort())
+                st.assume(z3.ForAll([k], z3.Implies(z3.And(0 <= k, k < z3.Length(r)), z3.And(z3.Select(sv, r[k]), pos(r[k]) == k))))
+                st.assume(z3.ForAll([x], z3.Implies(z3.Select(sv, x), z3.And(0 <= pos(x), pos(x) < z3.Length(r), r[pos(x)] == x))))
             if order:
                 st.assume(z3.ForAll([k, k2], z3.Implies(z3.And(0 <= k, k < k2, k2 < z3.Length(r)), r[k] < r[k2])))
+            elif distinct and not elements:  # (with `elements` the position function already makes the enumeration injective: pos(r[k]) == k)
+                st.assume(z3.ForAll([k, k2], z3.Implies(z3.And(0 <= k, k < k2, k2 < z3.Length(r)), r[k] != r[k2])))
             return Val(T.List(et), r)
         if not isinstance(v.ty, T.List) or v.ty.elem not in (STR, INT, REAL):
             raise Unsupported(f"sorted() of {v.ty}", node)
@@ -93,8 +99,12 @@ def make_sorted(tag, elements=True, order=True):
         x = fresh(t.elem, "sx")
         st.assume(z3.Length(r) == z3.Length(s))
         if elements:
-            st.assume(z3.ForAll([k], z3.Implies(z3.And(0 <= k, k < z3.Length(r)), z3.Exists([j], z3.And(0 <= j, j < z3.Length(s), r[k] == s[j])))))
-            st.assume(z3.ForAll([j], z3.Implies(z3.And(0 <= j, j < z3.Length(s)), z3.Exists([k], z3.And(0 <= k, k < z3.Length(r), r[k] == s[j])))))
+            # the sorting permutation and its inverse as functions (sorted(xs)[k] is xs[sigma(k)]; xs[j] is at position tau(j)); the inverse laws keep the
+            # two facts from instantiating each other for ever
+            sigma = z3.Function(fresh_name("sigma"), z3.IntSort(), z3.IntSort())
+            tau = z3.Function(fresh_name("tau"), z3.IntSort(), z3.IntSort())
+            st.assume(z3.ForAll([k], z3.Implies(z3.And(0 <= k, k < z3.Length(r)), z3.And(0 <= sigma(k), sigma(k) < z3.Length(s), r[k] == s[sigma(k)], tau(sigma(k)) == k))))
+            st.assume(z3.ForAll([j], z3.Implies(z3.And(0 <= j, j < z3.Length(s)), z3.And(0 <= tau(j), tau(j) < z3.Length(r), r[tau(j)] == s[j], sigma(tau(j)) == j))))
             st.assume(z3.ForAll([x], z3.Contains(r, z3.Unit(x)) == z3.Contains(s, z3.Unit(x))))
             st.assume(z3.ForAll([x], z3.Implies(z3.Contains(s, z3.Unit(x)), z3.Exists([k], z3.And(0 <= k, k < z3.Length(r), r[k] == x)))))
         if order:
